@@ -136,11 +136,13 @@ class LineTracer:
             if self.abort_only_under:
                 f = sys._getframe(1)
                 inside = False
-                while f is not None:
+                while f is not None and not inside:
                     fn = f.f_code.co_filename
-                    if fn.endswith(self.abort_only_under):
-                        inside = True
-                        break
+                    for want in self.abort_only_under:
+                        suffix, _, func = want.partition("::")
+                        if fn.endswith(suffix) and (not func or f.f_code.co_name == func):
+                            inside = True
+                            break
                     f = f.f_back
                 if not inside:
                     return None
